@@ -72,6 +72,10 @@ def run(tier):
                     else:
                         out.violation(f"kind:{lang}:{t}:{role}", f"{lang}: the {role} of {t} ({direction}) `{text}` yields a {k} where a {want} is needed", meta[oid])
                         continue
+                if role == "lift" and lang in IMPLICIT_BOOL and t in ("u8", "s8", "u16", "s16", "u32", "s32"):
+                    # C and C++: the lifted expression initialises / is returned as an object of the WIT type's C type, which
+                    # converts implicitly (modulo 2^n); `(uint16_t) x` stored in an int16_t is the same value as `(int16_t) x`
+                    ast = {"op": "conv", "to": t, "e": ast}
                 obs.append({"id": oid, "T": t, "role": role, "e": ast})
     op = os.path.join(wd, "obs.ndjson")
     write_ndjson(op, obs)
